@@ -1,4 +1,5 @@
 import ClaripyProofs.Lemmas.VSA.Lift
+import ClaripyProofs.Lemmas.VSA.SetQueries
 import ClaripyProofs.Lemmas.VSA.Lub
 import ClaripyProofs.Lemmas.VSA.AddSub
 import Claripy.VSA.Conc
@@ -93,6 +94,16 @@ theorem C23_dsis_add (a : DSIS) (bs : List SI) (order : List Nat) (v : Val)
     have hr' : r = s.add t := by cases hr; rfl
     subst hr'
     exact hPr s t hs ht
+
+/-- `min()` / `max()` of a discrete set (as repaired: taken over the members) bound every value of every member
+interval, wrapping members included -/
+theorem C23_dsis_min_max_bound (d : DSIS) (s : SI) (x : Nat) (hs : s ∈ d.sis) (hw : s.WF) (hx : s.mem x) :
+    (∀ m, d.minQ false = .ok (some m) → m ≤ x) ∧ (∀ m, d.maxQ false = .ok (some m) → (x : Int) ≤ m) :=
+  ⟨fun m h => dsis_min_le d m s x hs hw hx h, fun m h => dsis_le_max d m s x hs hw hx h⟩
+
+/-- non-vacuity: `{ 1[14,2], 1[6,8] }` at 4 bits (a member that wraps around 0) -/
+example : let d : DSIS := { bits := 4, sis := [SI.new 4 1 14 2, SI.new 4 1 6 8] }
+    d.minQ false = .ok (some 0) ∧ d.maxQ false = .ok (some 15) ∧ (SI.new 4 1 14 2).mem 15 := by decide
 
 /-- non-vacuity / bounded sanity fact: `{ {1}, 2[0,2] } + {1}` at 2 bits is `{ {2}, 2[1,3] }` -/
 theorem test_lift_example :
